@@ -488,7 +488,10 @@ func (r *vfcRun) ephBytes(x string) []byte {
 	case "e1", "e2", "e3":
 		s := r.sess[int(x[1]-'1')]
 		if s.ownEph == nil {
-			vfInfra("script uses %s before it was emitted", x)
+			// the real session never put its ephemeral on the wire (it returned earlier than the
+			// model expects): nothing to replay
+			r.obs = append(r.obs, "nothing-to-replay")
+			return nil
 		}
 		return s.ownEph
 	}
@@ -869,7 +872,9 @@ func (r *vfcRun) step(st vfcStep) map[string]any {
 	switch st.Act {
 	case "hello":
 		eb := r.ephBytes(st.X)
-		if st.Src > 0 {
+		if eb == nil {
+			eof, prov = true, "missing"
+		} else if st.Src > 0 {
 			frame = r.recorded(st, 0)
 			prov = fmt.Sprintf("%d.1", st.Src)
 		} else {
@@ -939,6 +944,8 @@ func (r *vfcRun) step(st vfcStep) map[string]any {
 			sc.Pk = raw
 			frame = vfcFrame(sc)
 		}
+	case "drop":
+		frame, eof, prov = nil, true, "eof"
 	default:
 		vfInfra("unknown action %q", st.Act)
 	}
